@@ -176,7 +176,28 @@ def _lemma_no_two_torsion(t):
     return out
 
 
-LEMMAS = {"b58val_nonneg": _lemma_b58val_nonneg, "pow_zero": _lemma_pow_zero, "no_two_torsion": _lemma_no_two_torsion}   # enabled per theorem via options["lemmas"]
+_SQ_TERMS = {}
+
+
+def _lemma_sq_eq(t):
+    """In Z/p (p prime): a*a = b*b implies a = b or a = -b.   lean/Field.lean: sq_eq_sq_field
+    Instantiated for every pair of square terms (a*a) % p, (b*b) % p that occur in the query."""
+    out = []
+    if z3.is_app_of(t, z3.Z3_OP_MOD) and z3.is_int_value(t.arg(1)) and t.arg(1).as_long() == SECP_P:
+        a = t.arg(0)
+        if z3.is_app_of(a, z3.Z3_OP_MUL) and len(a.children()) == 2 and a.arg(0).eq(a.arg(1)):
+            base = a.arg(0)
+            for k2, (t2, b2) in list(_SQ_TERMS.items()):
+                if not t2.eq(t):
+                    out.append(z3.Implies(z3.And(t == t2, base >= 0, base < SECP_P, b2 >= 0, b2 < SECP_P),
+                                          z3.Or(base == b2, base + b2 == SECP_P, z3.And(base == 0, b2 == 0))))
+            _SQ_TERMS[t.get_id()] = (t, base)
+            if len(_SQ_TERMS) > 40:
+                _SQ_TERMS.pop(next(iter(_SQ_TERMS)))
+    return out
+
+
+LEMMAS = {"sq_eq": _lemma_sq_eq, "b58val_nonneg": _lemma_b58val_nonneg, "pow_zero": _lemma_pow_zero, "no_two_torsion": _lemma_no_two_torsion}   # enabled per theorem via options["lemmas"]
 
 
 def lemma_rules(thm):
